@@ -47,9 +47,24 @@ def run_rules(prop: str, repo: Repo) -> Result:
     if eff is not None:
         ctx.result.analysed["effects_engine"] = {
             "call_sites_evaluated": eff.total_calls,
+            "call_resolution": dict(eff.stats),
+            "call_graph_edges": sum(len(v) for v in eff.edges.values()),
             "summaries": len(eff._memo),
             "unmodelled_library_methods_on_tracked_values": sorted(eff.unmodelled),
         }
+    try:
+        import json as _json
+
+        with open(os.path.join(os.path.dirname(os.path.dirname(os.path.abspath(__file__))), "properties.jsonl"), encoding="utf-8") as fh:
+            anchors = next((_json.loads(l)["anchors"]["files"] for l in fh if l.strip() and _json.loads(l)["id"] == prop), [])
+        ctx.result.analysed["anchored_modules"] = anchors
+        ctx.result.analysed["functions_in_anchored_modules"] = sum(
+            1 for f in repo.all_functions() if f.module.relpath in anchors)
+        ctx.result.analysed["modules_parsed"] = len(repo.modules)
+        ctx.result.analysed["functions_parsed"] = sum(1 for _ in repo.all_functions())
+        ctx.result.analysed["locals_alpha_renamed"] = repo.alpha_renamed
+    except Exception:  # pragma: no cover
+        pass
     return ctx.result
 
 
